@@ -174,9 +174,11 @@ def glue(rng, segments, crlf):
 
 def gen_sm_segments(rng):
     segs = []
-    n = rng.choice([0, 1, 2, 4, 8, 14])
+    n = rng.choice([0, 1, 2, 4, 8, 14, 14, 70, 100])   # the last two: headers of more than 64 properties
     for _ in range(n):
         key = rkey(rng, KEYS_SM)
+        if n >= 70 and rng.random() < 0.7:
+            key = "K%d" % len(segs)
         if rng.random() < 0.12:
             key = rng.choice(["NOTES", "notes", "Notes", "note\u017f"])
             nc = rng.choice([6, 6, 6, 7, 9, 5, 1, 0])
